@@ -669,6 +669,20 @@ def tensor_index(I, t: Tensor, key):
         if len({len(l) for l in lists}) != 1:
             raise PyExc("IndexError", ("shape mismatch: indexing arrays could not be broadcast together",))
         return Tensor((len(lists[0]),), [t.get([_norm_index(lists[ax][j], t.shape[ax]) for ax in range(t.ndim)]) for j in range(len(lists[0]))], t.dtype)
+    if len(key) == 1 and isinstance(key[0], Tensor) and key[0].ndim >= 2 and key[0].dtype != "bool":
+        # a[idx] with an integer index array of any shape: result shape = idx.shape + a.shape[1:]
+        k = key[0]
+        if any(isinstance(i, Sym) for i in k.data):
+            raise Unsupported("symbolic integer index array")
+        rest = t.shape[1:]
+        data = []
+        for i in k.data:
+            r = _norm_index(i, t.shape[0])
+            if rest:
+                data.extend(t.get((r,) + tail) for tail in iter_idx(rest))
+            else:
+                data.append(t.get((r,)))
+        return Tensor(tuple(k.shape) + tuple(rest), data, t.dtype)
     # expand newaxis / slices / ints
     dims = []          # for each source axis: list of indices, or int
     out_shape = []
